@@ -185,7 +185,8 @@ class TreeFn(Generic[_FnT, _T]):
     # single value outputs. E.g., input_keys='a' gives (some_values, ) up to
     # this point, we need to unwrap it to some_values as the return, thus,
     # skipping the wrapping here because SELF is normalized to (SELF,).
-    output_to_self = self.output_keys[0] == tree.Key.SELF
+    # The output_keys can be empty, e.g., a filter before any output key.
+    output_to_self = self.output_keys and self.output_keys[0] == tree.Key.SELF
     if output_to_self and len(outputs) > 1:
       outputs = (outputs,)
     return outputs
